@@ -618,6 +618,71 @@ def fill : List Piece → List PVal → List Piece
   | .hole :: ps, [] => fill ps []
   | p :: ps, vs => p :: fill ps vs
 
+
+/-! ### Side conditions of the structure theorem (C30-T2), as computable predicates -/
+
+/-- modes in which a `?` stands in code position -/
+def codeMode : Mode → Bool
+  | .norm => true
+  | .dash => true
+  | .qq q _ => q ≠ '?'
+  | _ => false
+
+/-- what a pending mode contributes when the next character does not continue it -/
+def flush : Mode → Except LexErr (List Piece)
+  | .dash => .ok [.ch '-']
+  | .qq q acc => closeQuoted q acc
+  | _ => .ok []
+
+/-- `c` does not continue the pending token of mode `m` -/
+def leaves (m : Mode) (c : Char) : Bool :=
+  match m with
+  | .dash => c ≠ '-'
+  | .qq q _ => c ≠ q
+  | _ => true
+
+/-- a character that is one piece by itself in code position -/
+def plainCode (c : Char) : Bool := !isQuote c && c ≠ '-' && !isWs c
+
+def plainRun (w : Str) : Bool := w.all (fun c => plainCode c && c ≠ '?')
+
+/-- well-formed bound values: numbers and bare words are non-empty runs of plain characters -/
+def PVal.wf : PVal → Bool
+  | .num _ body => !body.isEmpty && plainRun body
+  | .word w => !w.isEmpty && plainRun w
+  | .negWord w => !w.isEmpty && plainRun w
+  | _ => true
+
+def isStrVal : PVal → Bool
+  | .str _ => true
+  | _ => false
+
+/-- the first character of the value's text does not continue the token pending in mode `m`
+(a `-` after `-` would start a comment, a quote after a closing quote would double it) -/
+def headOk (m : Mode) (v : PVal) : Bool :=
+  match renderVal v with
+  | [] => false
+  | c :: _ => leaves m c
+
+/-- a string value must not be followed directly by a quote -/
+def tailOk (v : PVal) (T : Str) : Bool :=
+  !isStrVal v || (match T with | [] => true | c :: _ => c ≠ '\'')
+
+/-- every `?` of `sql` (scanned from mode `m`) is in code position, there are exactly as many
+values as placeholders, the values are well formed and none of them merges with its neighbours -/
+def bindSafe : Mode → Str → List PVal → Bool
+  | _, [], vs => vs.isEmpty
+  | m, c :: cs, vs =>
+    if c = '?' then
+      match vs with
+      | [] => false
+      | v :: vs' =>
+        codeMode m && v.wf && headOk m v && tailOk v (substitute cs vs') && bindSafe .norm cs vs'
+    else
+      match stepMode false m c with
+      | .ok (_, m') => bindSafe m' cs vs
+      | .error _ => true
+
 /-! ### The cursor's statement cache.  `σ` is the parsed statement type, `parse` the parser. -/
 
 structure Cursor (σ : Type) where
